@@ -90,6 +90,39 @@ class C17CLTop( Component ):
       if r and s.want_deq:
         s.obs['ret'] = s.dut.deq()
 
+class C17CLTopPF( Component ):
+  """Second harness top for NormalQueueCL, whose constraints leave the order of producer and consumer open:
+  here the producer block is forced to run first (no peek call, which would force the opposite order); the
+  queue's `up_pulse` must make the outcome the same."""
+
+  def construct( s, QType, num_entries ):
+    s.dut = QType( num_entries )
+    s.want_enq = False
+    s.enq_msg  = None
+    s.want_deq = False
+    s.obs      = {}
+    s.order    = []
+
+    @update_once
+    def up_producer():
+      s.order.append( 'enq' )
+      r = s.dut.enq.rdy()
+      s.obs['enq_rdy'] = bool( r )
+      if r and s.want_enq:
+        s.dut.enq( s.enq_msg )
+
+    @update_once
+    def up_consumer():
+      s.order.append( 'deq' )
+      r = s.dut.deq.rdy()
+      s.obs['deq_rdy'] = bool( r )
+      if r:
+        s.obs['peek'] = s.dut.queue[-1]
+      if r and s.want_deq:
+        s.obs['ret'] = s.dut.deq()
+
+    s.add_constraints( U( up_producer ) < U( up_consumer ) )
+
 # name -> (family, kind, constructor(MsgType, n), takes_capacity)
 CLASSES = {
   'qNormal':   ('A', 'normal', lambda T, n: Q_A.NormalQueueRTL(T, n), True),
@@ -107,6 +140,7 @@ CLASSES = {
   'vrBypass1': ('D', 'bypass', lambda T, n: Q_D.BypassQueue1RTL(T), False),
   'vrNormalN': ('D', 'normal', lambda T, n: Q_D.NormalQueueRTL(n, T), True),
   'clNormal':  ('E', 'normal', lambda T, n: C17CLTop(Q_E.NormalQueueCL, n), True),
+  'clNormalPF':('E', 'normal', lambda T, n: C17CLTopPF(Q_E.NormalQueueCL, n), True),
   'clPipe':    ('E', 'pipe',   lambda T, n: C17CLTop(Q_E.PipeQueueCL, n), True),
   'clBypass':  ('E', 'bypass', lambda T, n: C17CLTop(Q_E.BypassQueueCL, n), True),
 }
@@ -118,8 +152,11 @@ REAL_NAME = {
   'erBypass2': 'enrdy.BypassQueue2RTL',
   'vrNormal1': 'valrdy.NormalQueue1RTL', 'vrPipe1': 'valrdy.PipeQueue1RTL', 'vrBypass1': 'valrdy.BypassQueue1RTL',
   'vrNormalN': 'valrdy.NormalQueueRTL',
-  'clNormal': 'cl.NormalQueueCL', 'clPipe': 'cl.PipeQueueCL', 'clBypass': 'cl.BypassQueueCL',
+  'clNormal': 'cl.NormalQueueCL', 'clNormalPF': 'cl.NormalQueueCL', 'clPipe': 'cl.PipeQueueCL', 'clBypass': 'cl.BypassQueueCL',
 }
+
+# harness class -> class name of Model/Queue.lean
+LEAN_CLS = {'clNormalPF': 'clNormal'}
 
 def capacity(cls, n):
   if cls == 'erBypass2': return 2
